@@ -14,16 +14,16 @@ CHECKS = {
 CHECKS.update({
  # NEW-ENTRIES-HERE
  "C11": (True, "model_checking", "exhaustive enumeration of garbage-collection placements (bounded number of injected collections) over interception points generated before every statement of the decode/encode path (build overlay) and inside an instrumented probe codec, with GOGC=off and clobberfree so that collections are owned by the explorer",
-         "GC timing is the nondeterminism here, so the harness owns it: workers run with GOGC=off and GODEBUG=clobberfree=1; the library is rebuilt with a generated overlay that calls a hook before EVERY statement of every function, and an instrumented leaf type registered as a custom codec adds points inside every composite being decoded or encoded. For each of ~160 composite types (maps/slices/pointers of depth <=2 with probes inside and after), in three bank-lifetime variants (banks kept / dropped unclosed / recycled from the pool), every placement of at most 1 (2 thorough) injected collection + heap churn is executed; retained shallow copies must equal the written values after further collections and the encoded datum must equal the collection-free run. A mis-tracked object fails deterministically instead of 'sometimes after churn'.",
+         "GC timing is the nondeterminism here, so the harness owns it: workers run with GOGC=off and GODEBUG=clobberfree=1; the library is rebuilt with a generated overlay that calls a hook before EVERY statement of every function, and an instrumented leaf type registered as a custom codec adds points inside every composite being decoded or encoded. For each of ~160 composite types (maps/slices/pointers of depth <=2 with probes inside and after), in four decode variants (banks kept / dropped unclosed / recycled from the pool / collections rewritten one item per block by the reference writer, so slices and maps grow while holding items), every placement of at most 1 (2 thorough) injected collection + heap churn is executed; retained shallow copies must equal the written values after further collections and the encoded datum must equal the collection-free run. A mis-tracked object fails deterministically instead of 'sometimes after churn'.",
          "Collections are placed between statements, not between the machine instructions of one statement; quick tier uses the first occurrence of each static point in the main variant.", "DESIGN.md §4 C11"),
  "C12": (True, "model_checking", "stateless model checking of the real code under a cooperative scheduler (preemption-bounded exploration of all schedules by prefix replay) with vector-clock happens-before checking of generated access hooks; auxiliary free-running -race pass",
-         "The library is rebuilt (go build -overlay) with sync replaced by a scheduler shim and with generated read/write hooks on package-level variables and pointer-receiver objects. Ten three-thread scenarios that are made to collide on the registries, the bank pool, shared codecs and the timezone cache are explored over all schedules with at most 2 (3 thorough) preemptions at synchronisation granularity, and again with every hooked access as a scheduling point; every Pool.Get answer is a choice; executions are independent (registries and caches are reset by generated hooks) and reproducible (a divergence while replaying a prefix is a hard harness error). Each schedule is checked for unordered conflicting accesses, deadlock and result equivalence with a sequential order. The same bodies also run free on 16 goroutines under Go's race detector.",
+         "The library is rebuilt (go build -overlay) with sync replaced by a scheduler shim and with generated read/write hooks on package-level variables and pointer-receiver objects. Thirteen scenarios (three threads; one of two) that are made to collide on the registries (incl. a registered builder that re-enters the codec builder while another thread registers: RWMutex modelled with writer preference), the bank pool (incl. a ReadFile abandoned from a callback that closed its bank), shared codecs and the timezone cache are explored over all schedules with at most 2 (3 thorough) preemptions at synchronisation granularity, and again with every hooked access as a scheduling point; every Pool.Get answer is a choice; executions are independent (registries and caches are reset by generated hooks) and reproducible (a divergence while replaying a prefix is a hard harness error). Each schedule is checked for unordered conflicting accesses, deadlock and result equivalence with a sequential order. The same bodies also run free on 16 goroutines under Go's race detector.",
          "Sequentially consistent interleavings; syntactic instrumentation (errs towards 'read'); -race pass is sampling and auxiliary only.", "DESIGN.md §4 C12"),
  "C10": (True, "model_checking", "explicit-state BFS over real ResourceBank/ReadBuf operation sequences with pool recycling as an explored choice (sync shim via build overlay), shadow-heap model; exhaustive retention policies over ReadFile",
-         "The library is rebuilt with its sync import replaced by a shim whose Pool.Get answer is chosen by the explorer, so recycling of banks is enumerated instead of left to the runtime. Bank level: BFS over operation sequences (depth 6/7) on the real banks with a shadow heap checked after every step (zeroed, disjoint, intact). File level: every retention/close policy of the callback over 4-record multi-block files of each codec, with pool answers explored to a deviation bound; retained shallow copies must stay equal to deep copies while their bank is open.",
+         "The library is rebuilt with its sync import replaced by a shim whose Pool.Get answer is chosen by the explorer, so recycling of banks is enumerated instead of left to the runtime. Bank level: BFS over operation sequences (depth 6/7) on the real banks with a shadow heap checked after every step (zeroed, disjoint, intact). File level: every retention/close policy of the callback over 4-record multi-block files of each codec (map values of the same types as pointer targets; two record orders), with pool answers explored to a deviation bound; retained shallow copies must stay equal to deep copies while their bank is open.",
          "API misuse excluded; fill-level classes in the canonical state; shim pool is a superset of sync.Pool behaviour.", "DESIGN.md §4 C10"),
  "C20": (True, "model_checking", "explicit-state exploration of registration histories on the real global registries with a 'last registration wins' model; instrumented codecs; exhaustive positions",
-         "Registration histories over {Register(f1), Register(f2), RegisterSchema(s1), RegisterSchema(s2)} are explored from the unregistered state (fresh generic named types) and from carried-over states up to depth 3 (4 thorough) for custom types of three kinds; after every operation the type is used at 11 positions and the schema shown, the builder consulted, the codec actually run for every occurrence (invocation counters and a wire marker), validity under the reference decoder and codec/file round trips are compared with the model. Controls: never-registered look-alikes and the library's own registrations.",
+         "Registration histories over {Register(f1), Register(f2), RegisterSchema(s1), RegisterSchema(s2)} are explored from the unregistered state (fresh generic named types) and from carried-over states up to depth 3 (4 thorough) for custom types of three kinds; after every operation the type is used at 11 positions and the schema shown, the builder consulted, the codec actually run for every occurrence (invocation counters and a wire marker), validity under the reference decoder and codec/file round trips are compared with the model. Controls: never-registered look-alikes and the library's own registrations at every position and as siblings of one record; histories over {time.RegisterCodecs, null.RegisterCodecs, application registers time.Time, application registers null.Int} with a per-type 'most recent registration for that type governs' model.",
          "Registrations cannot be undone (state carried within a worker); custom builders accept string/long schemas only.", "DESIGN.md §4 C20"),
  "C06": (True, "fault_enumeration", "exhaustive single-field mutation, truncation and byte-replacement enumeration plus all short byte strings, on five reading entry points, in isolated workers with an allocation meter and a watchdog",
          "For every reading entry point (Codec.Read and Codec.Skip of ~50 codecs, ReadFile, SchemaFromString followed by Schema.Codec and a decode, timestamp text) three input families are enumerated completely: every byte string up to a length bound, every single-field mutation (20 boundary values) / truncation / byte replacement of every valid encoding, file, schema document and timestamp of a base family, and named structural cases. Each call must return without panic, without killing or stalling the worker, and with heap allocation (runtime/metrics) within 1 MiB + 1024 x input length. ~9.5 million distinct inputs in the quick tier.",
@@ -32,31 +32,31 @@ CHECKS.update({
          "The complete matrix of 24 schema nodes x 55 Go types x 4 positions (8 thorough) is enumerated: an unsound pair (per a soundness table written from the documented mapping) must be refused when the decoder is built; for every pair that builds, every in-range and out-of-range datum is decoded into a destination surrounded by canary fields, guard array elements and canary-patterned spare slice capacity, which must stay byte-identical, and the field must hold the reference value. The matrix is finite, so it is covered completely; worker isolation turns memory faults into attributed violations.",
          "Corruption beyond the guards that does not crash is unobserved; sound pairs the library refuses are not judged.", "DESIGN.md §4 C05"),
  "C03": (True, "exploration", "bounded-exhaustive enumeration of (schema, datum, every legal serialisation, file-block partition, codec, compatible target) on reference-written files",
-         "Files are produced by an independent reference writer whose choice-driven encoder enumerates EVERY legal serialisation of a datum (all block splits of arrays/maps, with and without byte sizes, null in either union position); every schema of depth <=2 (3 thorough), every datum of a bounded alphabet and every compatible Go target (pointer indirection, integer/float width, wrappers) are crossed; multi-record files cover every partition into file blocks and the three codecs. Values must equal the reference mapping; an integer that does not fit must yield an error and no callback.",
+         "Files are produced by an independent reference writer whose choice-driven encoder enumerates EVERY legal serialisation of a datum (all block splits of arrays/maps, with and without byte sizes, null in either union position); every schema of depth <=2 (3 thorough), every datum of a bounded alphabet and every compatible Go target (pointer indirection, integer/float width, wrappers) are crossed; multi-record files cover every partition into file blocks and the three codecs; streaming use (callback closes the bank at once / one record later) over every sequence of <=6 records of 5 allocation shapes exercises recycled banks. Values must equal the reference mapping; an integer that does not fit must yield an error and no callback.",
          "Depth and collection-size bounds; quick caps encodings per datum at 64 (reported); floats only where exactly representable.", "DESIGN.md §4 C03"),
  "C04": (True, "exploration", "bounded-exhaustive enumeration of projections (field subsets x permutations x added fields) over reference-written files, plus Skip-vs-Read consumption equality on every legal encoding",
-         "Codec level: for every schema node and every legal serialisation, the bytes consumed by Read, by the record skip path and by Codec.Skip must equal the reference decoder's. File level: for every ordered pair of an 18-schema pool (incl. size-prefixed multi-block collections, unions, fixed, nested records) every projection of the target struct is read and the remaining fields compared with the reference mapping; a mis-sized skip also trips the block's sync check.",
+         "Codec level: for every schema node and every legal serialisation, the bytes consumed by Read, by the record skip path and by Codec.Skip must equal the reference decoder's. File level: for every ordered pair of an 18-schema pool (incl. size-prefixed multi-block collections, unions, fixed, nested records) every projection of the target struct is read and the remaining fields compared with the reference mapping; a 130-branch union (two-byte selectors) is skipped with every branch selected; a mis-sized skip also trips the block's sync check.",
          "Pool of 18 field schemas, 2 data fields + sentinel per record, two nesting levels.", "DESIGN.md §4 C04"),
  "C13": (True, "exploration", "bounded-exhaustive enumeration of (caller schema, covering Go type, value) triples; reference decoder as oracle for Write, reference mapping for Read",
          "Every schema of nesting depth <=2 (3 thorough) over the supported leaves (incl. logical date/timestamps and null in either union position) is paired with every compatible Go field type (integer and float widths, pointers, null.* wrappers, time.Time) and every value of a bounded alphabet; when Schema.Codec builds, the bytes Write produces must decode under the reference decoder, with nothing left over, to the datum the value denotes, and Read of those bytes must return the value. 17k distinct triples in the quick tier.",
          "Only null+one-type unions are written; depth bound; times under long schemas restricted to the int64-nanosecond range.", "DESIGN.md §4 C13"),
  "C01": (True, "exploration", "bounded-exhaustive enumeration of (struct type, value sequence, codec, block size, flush pattern, reader chunking) through the real encoder and reader",
-         "Small-scope exhaustive exploration: 900+ probe struct types (all type expressions of depth <=2 over 16 leaves and 4 wrappers; the depth<=1 ones as generated static types through the real generic Encoder[T]) x every value sequence of length <=2 over the full value alphabet and every length-3 sequence over representatives x 3 codecs x 4 block sizes x every flush subset, read back through ReadFile into T and *T under three reader behaviours; canary fields around the probe field expose out-of-field loads/stores. Every small shape is visited, which is what finds the breaking type shapes the suite does not sample.",
+         "Small-scope exhaustive exploration: 900+ probe struct types (all type expressions of depth <=2 over 16 leaves and 4 wrappers; the depth<=1 ones as generated static types through the real generic Encoder[T]) x every value sequence of length <=2 over the full value alphabet and every length-3 sequence over representatives x 3 codecs x 4 block sizes x every flush subset, read back through ReadFile into T and *T under three reader behaviours, each record compared both as deep-copied at delivery and as the struct copy the caller still holds when ReadFile returns; canary fields around the probe field expose out-of-field loads/stores. Every small shape is visited, which is what finds the breaking type shapes the suite does not sample.",
          "Depth/size bounds (small-scope hypothesis); dynamic types use an API-level emulation of the 20-line Encoder.", "DESIGN.md §4 C01"),
  "C02": (True, "exploration", "same bounded-exhaustive case space as C01, judged by an independent reference container parser / decoder written from the spec",
          "Every output file of the C01 case space is parsed by a reference container parser (exact counts and sizes, reference decompressors, sync), its embedded schema by a reference JSON parser, and each block is decoded under that schema alone with zero leftover bytes and compared (including union branches) with the datum the documented mapping assigns to the written Go value. Mirrored encode/decode errors are visible because the oracle shares no code with the library.",
          "Trusts ref (self-checked at setup) and the abstraction function gv.ToDatum; empty non-nil omitempty collections may be null or non-null.", "DESIGN.md §4 C02"),
  "C14": (True, "exploration", "bounded-exhaustive enumeration of schema ASTs x key orders x layouts x extra attributes; reference JSON parser/printer as oracle",
-         "Every schema AST up to nesting depth 2 (3 in thorough) over all supported attributes is rendered under 24 key orderings, 3 layouts and with 9 kinds of extra attribute at every object; the parse result is compared structurally with the expected schema, Marshal output is validated with encoding/json, re-parsed by an independent parser and by the library (round-trip identity); every truncation / structural-token deletion or duplication of the small documents must be rejected.",
+         "Every schema AST up to nesting depth 2 (3 in thorough) over all supported attributes is rendered under 24 key orderings, 3 layouts and with 18 kinds of extra attribute at every object (9 of them look-alikes of supported attributes differing only in case or punctuation), also through the file-header path (FileSchema); the parse result is compared structurally with the expected schema, Marshal output is validated with encoding/json, re-parsed by an independent parser and by the library (round-trip identity); after every document the result is overwritten in place and the same document parsed again (parsing is a function of the document alone); every truncation / structural-token deletion or duplication of the small documents must be rejected.",
          "Depth bound; nil/empty Object and slices identified; malformed = rejected by encoding/json.", "DESIGN.md §4 C14"),
  "C15": (True, "exploration", "bounded-exhaustive enumeration of Go struct types against the documented mapping written as a total specification function; worker isolation for non-termination",
-         "~1,600 struct types (84 field types x 15 tag combinations, multi-field shapes, nested wrappers, embedded fields, repeated named structs, 7 self-referential shapes; all ordered pairs in thorough) are given to SchemaForType; the result must equal the documented mapping (spec.SchemaFor), be structurally valid, be deterministic, and Schema.Codec on it must return without panic; self-referential types run in their own worker with a bounded stack so non-termination is observed as a violation.",
+         "~1,600 struct types (84 field types x 15 tag combinations, multi-field shapes, nested wrappers, embedded fields, repeated named structs, 7 self-referential shapes; all ordered pairs in thorough) are given to SchemaForType; the result must equal the documented mapping (spec.SchemaFor), be structurally valid, be deterministic (also after the caller has overwritten the first result, and across every history <=3 of generate / register-schema steps on fresh types), and Schema.Codec on it must return without panic; self-referential types run in their own worker with a bounded stack so non-termination is observed as a violation.",
          "Go arrays and duplicate JSON names are not judged (mapping silent); anonymous structs exempt from the named-type rule.", "DESIGN.md §4 C15"),
  "C18": (True, "exploration", "bounded-exhaustive grammar-product enumeration of timestamp strings through the public decode path, standard library as oracle",
-         "An exhaustive product over the RFC 3339 grammar (calendar/time grid x every fraction digit string up to length 10/12 over a 2/3-digit alphabet x separators x 11 zones), all date-only strings of the grid, a format->parse identity sweep and every truncation / single-character mutation of six valid timestamps, all pushed through the real codec (string field -> time.Time / null.Time). Whenever the string matches the grammar and time.Parse accepts it, instant and offset must agree; no string may panic.",
+         "An exhaustive product over the RFC 3339 grammar (calendar/time grid x every fraction digit string up to length 10/12 over a 2/3-digit alphabet x separators x 11 zones), all date-only strings of the grid, a format->parse identity sweep and every truncation / single-character mutation of six valid timestamps, all pushed through the real codec (string field -> time.Time / null.Time) from one reused buffer, plus every ordered pair of 38 and triple of 8 valid timestamps as decode histories. Whenever the string matches the grammar and time.Parse accepts it, instant and offset must agree; no string may panic.",
          "Oracle is time.Parse(RFC3339) restricted to the RFC 3339 grammar; digit alphabets are bounded.", "DESIGN.md §4 C18"),
  "C19": (True, "exploration", "exhaustive enumeration of stored integers (all int32 days in thorough) and structured time sets through the real logical-type codecs, independent arithmetic as oracle",
-         "Read direction: every int32 day count (thorough; |d|<=2^20 + boundaries quick) and 2^k±δ longs inside the int64-nanosecond range for timestamp-millis/-micros/plain long; write direction: base times x 31 offsets and every day boundary around the epoch. Each is compared with time.Unix/UnixMilli/UnixMicro and floor division.",
+         "Read direction: every int32 day count (thorough; |d|<=2^20 + boundaries quick) and 2^k±δ longs inside the int64-nanosecond range for timestamp-millis/-micros/plain long; write direction: base times x 31 offsets and every day boundary around the epoch; and the type in every position of a record (two pointers, slice, map, both nullable unions) over pairs of consecutive records. Each is compared with time.Unix/UnixMilli/UnixMicro and floor division.",
          "Long domains on boundary sets only; floor-to-resolution interpretation of the write clause.", "DESIGN.md §4 C19"),
  "C07": (True, "fault_enumeration", "exhaustive single-bit damage enumeration over a reference-written file family, plus callback-failure points and metadata variants",
          "Every bit of every sync marker, snappy CRC, compressed payload byte and of the magic is flipped, one at a time, in every file of a family (3 schemas x 3 codecs x every block composition of <=3 records) written by an independent reference writer; the callback is failed at every record index; metadata variants cover missing schema / absent and unknown codec. The oracle is the reference parser and the reference decompressors. The corruption space of a small file is finite, so it is enumerated completely rather than sampled.",
@@ -68,7 +68,7 @@ CHECKS.update({
          "Explicit-state search over every encode/flush history up to a depth bound (6 quick / 8 thorough; 8/12 for the zero-byte record), for 9 block sizes x 3 codecs, executed on the real Encoder[T]; after every call the complete output is parsed by an independent container parser and compared with a lock-step model (list of pending records). The property quantifies over call histories of a small state machine, which is exactly what bounded explicit-state search decides.",
          "Record sizes from a 4-element alphabet; depth bound; state canonicalisation argument in the evidence assumptions; reference parser/decompressors trusted.", "DESIGN.md §4 C09"),
  "C16": (True, "fault_enumeration", "exhaustive enumeration of (call history, failing write index, short-write mode) on the real encoder over a fault-injecting io.Writer",
-         "For every encoder history up to length 4 (6 thorough) and every FileWriter block sequence, every write index at which the io.Writer can fail is enumerated with three short-write modes; the triggering call must return an error wrapping the injected one, and the accepted bytes must be a prefix of the fault-free run re-keyed to the same sync marker. The fault space of a history is finite (1+4 writes per block), so it is enumerated completely.",
+         "For every encoder history up to length 4 (6 thorough) and every FileWriter block sequence, every write index at which the io.Writer can fail is enumerated with four accept modes (0, 1, len-1, all bytes — an error with a full count is legal) x {persistent, transient}, and through a sink type that also has Flush/Sync/Close/WriteString; the triggering call must return an error wrapping the injected one, and the accepted bytes must be a prefix of the fault-free run re-keyed to the same sync marker. The fault space of a history is finite (1+4 writes per block), so it is enumerated completely.",
          "Histories stop at the first failure; writer obeys the io.Writer contract.", "DESIGN.md §4 C16"),
 })
 ALL = ["C%02d" % i for i in range(1, 21)]
